@@ -122,6 +122,16 @@ func (w *Wallet) FundPsbt(packet *psbt.Packet, keyScope *waddrmgr.KeyScope,
 	// If there are inputs, we need to check if they're sufficient and add
 	// a change output if necessary.
 	default:
+		// An outpoint can only be spent once per transaction.
+		seenInputs := make(map[wire.OutPoint]struct{}, len(txIn))
+		for _, in := range txIn {
+			if _, ok := seenInputs[in.PreviousOutPoint]; ok {
+				return 0, fmt.Errorf("duplicate input %v in PSBT "+
+					"packet", in.PreviousOutPoint)
+			}
+			seenInputs[in.PreviousOutPoint] = struct{}{}
+		}
+
 		// Make sure all inputs provided are actually ours.
 		packet.Inputs = make([]psbt.PInput, len(packet.UnsignedTx.TxIn))
 
